@@ -29,11 +29,15 @@ def gen(thorough, seed):
 
 def periodic_case(rng, calls):
     iv = rng.choice([50, 100])
-    ops = ["cfg interval=%d" % iv]
+    rot = rng.choice([0, 0, 1, 150])                        # log rotation: off / after every write / every few writes
+    ops = ["cfg interval=%d" % iv + (" rot=%d" % rot if rot else "")]
     now = 0
     next_tick = iv
     for _ in range(rng.randint(6, 14)):
-        k = rng.choice(["ins", "ins", "ins", "del", "advance", "advance", "ploss"])
+        k = rng.choice(["ins", "ins", "ins", "del", "advance", "advance", "ploss", "restart"])
+        if k == "restart":
+            ops.append("restart")
+            continue
         if k == "ins":
             ops.append("ins id=%d x=%d" % (rng.randint(1, 4), rng.randint(1, 9)))
         elif k == "del":
@@ -63,6 +67,8 @@ def periodic_oracle(case):
     for i, (l, r) in enumerate(zip(raw, impl)):
         if r.startswith("unknown-timer-call") or r.startswith(("bad-op", "<")):
             fails.append(("harness", i, "%s -> %s" % (l, r))); break
+        if l == "restart" and not r.startswith("ok"):
+            fails.append(("c01-periodic-restart", i, "a clean restart under the periodic policy fails: %s" % r)); break
         m = re.match(r"ok t=(\d+)", r)
         if m and l.startswith(("ins ", "del ")):
             acked.append((int(m.group(1)), l))
@@ -123,7 +129,8 @@ def periodic_extra(rep, thorough, seed):
                              "sig": {"engine": "periodic", "kind": kind}, "pred": None})
     return findings, {"periodic": {"timer_calls_extracted_from_source": calls, "histories": len(cases), "power_loss_checks": checks,
                                    "distinct_outcomes_seen": nstates,
-                                   "rule": "TieredEngine with persistence under FsyncPolicy::Periodic(50|100 ms) and a virtual monotonic clock; the server's "
+                                   "rule": "TieredEngine with persistence under FsyncPolicy::Periodic(50|100 ms), log rotation off / after every write / every few "
+                                           "writes, clean restarts (shutdown flush, drop, strict TieredEngine::recover) and a virtual monotonic clock; the server's "
                                            "periodic task body (calls extracted from kyrodb_server.rs on every run) replayed at every multiple of the interval; "
                                            "at random instants every directory a power failure may leave is recovered strictly: it must be the fold of a prefix "
                                            "of the acknowledged operations containing all those acknowledged more than one interval earlier"}}
